@@ -89,21 +89,41 @@ func ruleC19CleanFailure(c *Ctx) {
 	c.Doc("c19.clean-failure", "usable afterwards: no write into caller-owned storage survives an error exit (the ownership obligations of C11, including the marker-restored-by-defer rule); the selector cache entry is stored only after every ParseSelector call succeeded; ExecReader releases the global mutex on every path (lock pairing)")
 	_, bad := c.classifyWrites("c19.clean-failure/own", nil, true)
 	_ = bad
-	er := c.P.Func(modPath, "ExecReader")
+	// the function that fills the process-wide selector cache (a map update on a package-level map)
+	var er *ssa.Function
+	for _, f := range c.P.pkgFuncs(modPath) {
+		allInstrs(f, func(_ *ssa.BasicBlock, in ssa.Instruction) {
+			if mu, ok := in.(*ssa.MapUpdate); ok {
+				if ld, ok := mu.Map.(*ssa.UnOp); ok {
+					if g, ok := ld.X.(*ssa.Global); ok && g.Name() == "cache" {
+						er = f
+					}
+				}
+			}
+		})
+	}
 	if er == nil {
-		c.Unknown("c19.clean-failure", "ExecReader", "-", "anchor lost")
+		c.Unknown("c19.clean-failure", "selector-cache", "-", "anchor lost: no function stores into the selector cache")
 		return
 	}
-	c.Fn("ExecReader")
+	erKey := c.P.funcKey(er)
+	c.Fn(erKey)
+	c.Anchor("selector cache writer", erKey+" "+c.P.Pos(er.Pos()))
 	// cache store dominated by success of ParseSelector: no path reaches the store of the global cache map with a non-nil parse error
 	paths, err := WalkFunc(er, WalkCfg{MaxVisits: 2, MaxPaths: 4000})
 	if err != nil {
-		c.Unknown("c19.clean-failure", "ExecReader/cache", c.P.Pos(er.Pos()), err.Error())
+		c.Unknown("c19.clean-failure", erKey+"/cache", c.P.Pos(er.Pos()), err.Error())
 		return
 	}
 	okC, whyC := true, ""
 	okL, whyL := true, ""
 	nStore := 0
+	deferredUnlock := false
+	allInstrs(er, func(_ *ssa.BasicBlock, in ssa.Instruction) {
+		if d, ok := in.(*ssa.Defer); ok && strings.HasSuffix(calleeName(d.Common()), "Mutex).Unlock") {
+			deferredUnlock = true
+		}
+	})
 	for _, p := range paths {
 		errSeen := false
 		held := 0
@@ -141,13 +161,13 @@ func ruleC19CleanFailure(c *Ctx) {
 				}
 			}
 		}
-		if p.Exit == "return" && held != 0 {
+		if p.Exit == "return" && held != 0 && !deferredUnlock {
 			okL, whyL = false, fmt.Sprintf("a return at %s leaves the global mutex %s", c.P.Pos(p.ExitInstr.Pos()), map[bool]string{true: "locked", false: "over-unlocked"}[held > 0])
 		}
 	}
 	if nStore == 0 {
 		okC, whyC = false, "no store to the selector cache found"
 	}
-	c.Check(okC, "c19.clean-failure", "ExecReader/cache-after-parse", c.P.Pos(er.Pos()), "cache[selector] is stored only on paths where every ParseSelector succeeded", whyC)
-	c.Check(okL, "c19.clean-failure", "ExecReader/lock-pairing", c.P.Pos(er.Pos()), "every return path has Lock/Unlock balanced", whyL)
+	c.Check(okC, "c19.clean-failure", erKey+"/cache-after-parse", c.P.Pos(er.Pos()), "cache[selector] is stored only on paths where every ParseSelector succeeded", whyC)
+	c.Check(okL, "c19.clean-failure", erKey+"/lock-pairing", c.P.Pos(er.Pos()), "every return path has Lock/Unlock balanced", whyL)
 }
